@@ -2,9 +2,12 @@ import HcModel.Pairings
 import HcModel.Http
 import HcModel.Generated.PanicSites
 import HcModel.Generated.CtxLock
+import HcModel.Generated.SrvLock
 import HcModel.PanicSitesExpected
 import HcProofs.Lemmas.PairSetup
 import HcProofs.Lemmas.PairVerify
+import HcProofs.Lemmas.CloseRace
+import HcProofs.Lemmas.Tlv8
 /-
   C13 — no remote input panics or wedges the accessory.
   Models: PairSetup / PairVerify / Pairings (each with an explicit `panic` outcome that the pre-repair code reaches),
@@ -183,5 +186,113 @@ theorem context_map_never_accessed_concurrently :
 theorem context_shared_lock_write_refuted :
     fatalPair ("Delete", "write", "RLock", true) ("Get", "read", "RLock", true) = true ∧
     fatalPair ("Delete", "write", "RLock", true) ("Delete", "write", "RLock", true) = true := by decide
+
+/-! ## a connection closes while its peer reconnects from the same port (F56) -/
+
+open Hc.CloseRace in
+/-- "…afterwards a correct handshake on a new connection still succeeds": a controller resets its connection and
+    reconnects from the same port; net/http's goroutine of the old connection runs `Close` while the new connection is
+    being accepted (any number of such reconnects, the close at any point among them). Whatever the schedule, the session
+    registered for the address pair in the end is the one of the connection accepted last — the old connection's `Close`
+    never takes a newer connection's session away (without a session every pairing handler of that connection fails).
+    F56 repair: `Close` compares and deletes under one lock, which `NewConnection` takes too. -/
+theorem reconnect_during_close_keeps_session (evs : List Ev) (hf : Fixed evs) (s : Nat) (hs : lastConnect evs = some s) :
+    (run CloseRace.init evs).reg = some s := by
+  rw [run_fixed evs CloseRace.init hf, hs]
+
+open Hc.CloseRace in
+/-- … and with no reconnect the close removes its own session -/
+theorem close_removes_own_session (evs : List Ev) (hf : Fixed evs) (hn : lastConnect evs = none) (hc : Ev.closeAtomic ∈ evs) :
+    (run CloseRace.init evs).reg = none := by
+  rw [run_fixed evs CloseRace.init hf, hn]
+  simp [hc, CloseRace.init]
+
+open Hc.CloseRace in
+/-- before the repair: lookup, then the new connection registers its session, then the delete — the NEW connection is
+    left without a session -/
+theorem reconnect_during_close_unfixed_refuted :
+    (run CloseRace.init [.closeGet, .connect 1, .closeDel]).reg = none ∧
+    (run CloseRace.init [.connect 1, .closeAtomic]).reg = some 1 ∧ (run CloseRace.init [.closeAtomic, .connect 1]).reg = some 1 := by
+  decide
+
+/-! ## lock regions that decide whether one peer can keep the others waiting (regenerated) -/
+
+/-- the step names the extractor produces for the two mutexes concerned; a path with any other step (another mutex, a
+    deferred unlock, a goroutine) is not accepted by the predicates below -/
+def lockSteps : List String := ["Lock:mutex", "Lock:sessionMutex"]
+def unlockSteps : List String := ["Unlock:mutex", "Unlock:sessionMutex"]
+def plainSteps : List String := ["encode", "write", "set", "get", "delete", "close"]
+
+def vocabOk (path : List String) : Bool :=
+  path.all fun s => lockSteps.contains s || unlockSteps.contains s || plainSteps.contains s
+
+/-- number of locks held after the steps so far -/
+def heldAfter : List String → Nat → Nat
+  | [], h => h
+  | s :: r, h =>
+    if lockSteps.contains s then heldAfter r (h + 1)
+    else if unlockSteps.contains s then heldAfter r (h - 1)
+    else heldAfter r h
+
+/-- no `write` step happens while a lock is held -/
+def writesOutsideLocks : List String → Nat → Bool
+  | [], _ => true
+  | s :: r, h =>
+    if lockSteps.contains s then writesOutsideLocks r (h + 1)
+    else if unlockSteps.contains s then writesOutsideLocks r (h - 1)
+    else if s == "write" then h == 0 && writesOutsideLocks r h
+    else writesOutsideLocks r h
+
+/-- the part of a path between the first `lock` step and the next `unlock` step -/
+def regionOf (lock unlock : String) : List String → List String
+  | [] => []
+  | s :: r => if s == lock then r.takeWhile (fun t => t != unlock) else regionOf lock unlock r
+
+/-- `GET /accessories` in the source now (Generated/SrvLock.lean): the database is encoded under the server mutex and
+    written to the connection after the mutex was released — a controller that does not read its answer blocks its own
+    handler in the write, with no lock held, and every other controller's request goes on (F57 repair; before it the write
+    happened under the mutex and one such peer kept `/accessories` from everybody). -/
+theorem accessories_written_outside_the_lock :
+    vocabOk Hc.Generated.accessoriesPath = true ∧
+    writesOutsideLocks Hc.Generated.accessoriesPath 0 = true ∧ Hc.Generated.accessoriesPath.contains "write" = true ∧
+    (regionOf "Lock:mutex" "Unlock:mutex" Hc.Generated.accessoriesPath).contains "encode" = true ∧
+    heldAfter Hc.Generated.accessoriesPath 0 = 0 := by decide
+
+theorem accessories_write_under_lock_refuted :
+    writesOutsideLocks ["Lock:mutex", "write", "Unlock:mutex"] 0 = false ∧
+    writesOutsideLocks ["Lock:mutex", "deferUnlock:mutex", "encode", "write"] 0 = false ∧
+    vocabOk ["Lock:mutex", "deferUnlock:mutex", "encode", "write"] = false := by decide
+
+/-- `NewConnection` and `Close` in the source now: the registration of a new connection's session and the
+    compare-and-remove of a closing one happen under the same package-level mutex, each inside one region — which is the
+    hypothesis `Fixed` (the close is ONE step among the connects) of `reconnect_during_close_keeps_session`. The socket is
+    closed after the mutex was released. -/
+theorem session_registration_serialised :
+    vocabOk Hc.Generated.newConnectionPath = true ∧ vocabOk Hc.Generated.closePath = true ∧
+    regionOf "Lock:sessionMutex" "Unlock:sessionMutex" Hc.Generated.newConnectionPath = ["set"] ∧
+    regionOf "Lock:sessionMutex" "Unlock:sessionMutex" Hc.Generated.closePath = ["get", "delete"] ∧
+    heldAfter Hc.Generated.closePath 0 = 0 ∧ heldAfter Hc.Generated.newConnectionPath 0 = 0 ∧
+    Hc.Generated.closePath.getLast? = some "close" := by decide
+
+theorem session_registration_unlocked_refuted :
+    regionOf "Lock:sessionMutex" "Unlock:sessionMutex" ["get", "delete", "close"] ≠ ["get", "delete"] ∧
+    regionOf "Lock:sessionMutex" "Unlock:sessionMutex" ["Lock:sessionMutex", "get", "Unlock:sessionMutex", "delete", "close"] ≠ ["get", "delete"] := by decide
+
+/-! ## what a request body can cost (F59) -/
+
+open Hc.Tlv8 in
+/-- Whatever bytes a peer sends as the body of a pairing request: the container the accessory parses from them has at most
+    one item per two bytes, and the values of its items are never more than the body. With the body cut at 64 KiB (below)
+    that is at most 32768 items — before the F59 repair nothing cut it, and 96 MiB of empty items (two bytes each on the
+    wire, a slice header and more each in memory) ended a process with a 2 GiB address space (stream `huge-body`). -/
+theorem parsed_items_bounded_by_body (bs : Bytes) (is : Container) (h : parse bs = .ok is) :
+    2 * is.length + (is.map (fun i => i.val.length)).sum ≤ bs.length :=
+  parse_cost bs.length bs is (Nat.le_refl _) h
+
+/-- every endpoint that parses a TLV8 request body reads it through `http.MaxBytesReader` with a limit of 64 KiB in the
+    source now (Generated/SrvLock.lean, go/ast; the pairing messages are below 1 KiB) -/
+theorem pairing_request_bodies_limited :
+    Hc.Generated.bodyReaders = ["pair-setup.go: limited 65536", "pair-verify.go: limited 65536", "pairings.go: limited 65536"] := by
+  decide
 
 end Hc.Props.C13
